@@ -23,6 +23,7 @@ type Obs struct {
 func Observe(root *ggql.Root, run *Run, text, op string, vars map[string]interface{}) *Obs {
 	o := &Obs{}
 	var res map[string]interface{}
+	core.Announce("ResolveString op=" + op + " of:\n" + text)
 	o.Panic = core.Safe(func() { res = root.ResolveString(text, op, vars) })
 	if o.Panic != nil {
 		return o
